@@ -26,7 +26,7 @@ REQUIRED = ['mon.writes_checked', 'mon.refused_checked', 'mon.value_replies', 'm
             'mon.misc_replies', 'mon.one_outstanding_pairs', 'mon.precedence_pairs', 'mon.notifications',
             'mon.multi_outstanding_misc_cases', 'mon.v1_cases', 'mon.state_queries_answered_enoent',
             'mon.instant_reply_cases_with_statement_level_preemption', 'mon.additional_listeners_checked',
-            'mon.cases_with_replies_delayed_by_seconds']
+            'mon.cases_with_replies_delayed_by_seconds', 'mon.queries_reissued_from_their_own_callback']
 DESC_TIMEOUT = 900
 
 FLOATS = [0.0, -0.0, 1.5, -2.25, float('inf'), float('-inf'), float('nan'), 1e-45, 3.4028234663852886e38, 1e39,
@@ -212,7 +212,19 @@ def run(desc, ctx):
                     elif kind == 'state':
                         cf.param.persistent_get_state(op[1], lambda n, r, u=uid: ob['misc_cb'].append((u, 'state', n, r)))
                     elif kind == 'default':
-                        cf.param.get_default_value(op[1], lambda n, r, u=uid: ob['misc_cb'].append((u, 'default', n, r)))
+                        if desc['misc_burst'] and j % 2 == 0:
+                            # the completion callback asks again (an application retrying / polling from its callback)
+                            uid2 = ('cb%d' % tid, j)
+
+                            def again(n, r, u=uid, u2=uid2, name=op[1], idx=op[2]):
+                                ob['misc_cb'].append((u, 'default', n, r))
+                                ob['calls'].append({'uid': u2, 'op': ('default', name, idx), 'call': s.steps, 'ret': s.steps, 'exc': None,
+                                                    'retval': None, 'tx_during': 0})
+                                ob['reissued'] = ob.get('reissued', 0) + 1
+                                cf.param.get_default_value(name, lambda n_, r_, u3=u2: ob['misc_cb'].append((u3, 'default', n_, r_)))
+                            cf.param.get_default_value(op[1], again)
+                        else:
+                            cf.param.get_default_value(op[1], lambda n, r, u=uid: ob['misc_cb'].append((u, 'default', n, r)))
                 except ds.SchedAbort:
                     raise
                 except ds.ThreadKilled:
@@ -265,6 +277,7 @@ def run(desc, ctx):
         ctx.count('mon.instant_reply_cases_with_statement_level_preemption')
     if desc['maxdelay'] >= 3.0:
         ctx.count('mon.cases_with_replies_delayed_by_seconds')
+    ctx.count('mon.queries_reissued_from_their_own_callback', ob.get('reissued', 0))
     idfmt = '<H' if v2 else '<B'
     idlen = 2 if v2 else 1
     tx = [t for t in spec.tx[ob['t0_tx']:] if (t[2] >> 4) & 0xF == 2]
